@@ -67,14 +67,14 @@ M("C01-extra-state-writer", "C01", "R1.1", TK,
             if self.remaining_work_amount < 0:
                 self.state = BaseTaskState.READY""")
 M("C01-ff-gate-dropped", "C01", "R1.2", WF,
-  """                elif dependency == BaseTaskDependency.FF:
-                    if input_task.state == BaseTaskState.FINISHED:
-                        finished = True
-                    else:
-                        finished = False
-                        break""",
-  """                elif dependency == BaseTaskDependency.FF:
-                    pass""")
+  """                    elif dependency == BaseTaskDependency.FF:
+                        if input_task.state == BaseTaskState.FINISHED:
+                            finished = True
+                        else:
+                            finished = False
+                            break""",
+  """                    elif dependency == BaseTaskDependency.FF:
+                        pass""")
 
 # ---------------------------------------------------------------------------------------- C05
 M("C05-time-gt", "C05", "R5.1", PJ, "            if self.time >= max_time:", "            if self.time > max_time:")
@@ -458,11 +458,11 @@ M("C17-work-before-try", "C17", "R17.1", PJ,
         self.workflow.update_PERT_data(0)
         try:""")
 M("C17-sim-step-edits-structure", "C17", "R17.4", WF,
-  """                task.allocated_worker_list = []
-                if task.need_facility:""",
-  """                task.allocated_worker_list = []
-                task.output_task_list = [x for x in task.output_task_list]
-                if task.need_facility:""")
+  """                    task.allocated_worker_list = []
+                    if task.need_facility:""",
+  """                    task.allocated_worker_list = []
+                    task.output_task_list = [x for x in task.output_task_list]
+                    if task.need_facility:""")
 M("C17-restore-before-cleanup", "C17", "R17.1", PJ,
   """            self.simulation_mode = SimulationMode.BACKWARD
             for autotask in autotask_removing_after_simulation:""",
